@@ -94,6 +94,43 @@ pub open spec fn vx_claimed_by<R: Registry>(s: int, free: Seq<entity::Identifier
     ||| exists|j: int, r: int| 0 <= j < tn && 0 <= r < m[keys[j]].length && (#[trigger] m[keys[j]].ids()[r]).index == s
     ||| exists|r: int| 0 <= r < rn && tn < keys.len() && (#[trigger] m[keys[tn]].ids()[r]).index == s
 }
+
+/// number of claimed slots that carry a location (C13: the entity count of the rebuilt allocator)
+pub open spec fn vx_opt_active<R: Registry>(s: Seq<Option<Slot<R>>>) -> nat
+    decreases s.len()
+{
+    if s.len() == 0 { 0 } else { vx_opt_active(s.drop_last()) + (if s.last() is Some && s.last()->0.location is Some { 1nat } else { 0nat }) }
+}
+pub proof fn lemma_opt_none<R: Registry>(s: Seq<Option<Slot<R>>>)
+    requires forall|i: int| 0 <= i < s.len() ==> (#[trigger] s[i]) is None,
+    ensures vx_opt_active(s) == 0
+    decreases s.len()
+{
+    if s.len() > 0 { assert(s.last() is None); lemma_opt_none(s.drop_last()); }
+}
+/// claiming an unclaimed slot adds one exactly when the claim carries a location
+pub proof fn lemma_opt_claim<R: Registry>(s: Seq<Option<Slot<R>>>, i: int, x: Option<Slot<R>>)
+    requires 0 <= i < s.len(), s[i] is None,
+    ensures vx_opt_active(s.update(i, x)) == vx_opt_active(s) + (if x is Some && x->0.location is Some { 1nat } else { 0nat })
+    decreases s.len()
+{
+    if i == s.len() - 1 {
+        assert(s.update(i, x).drop_last() =~= s.drop_last());
+    } else {
+        assert(s.update(i, x).drop_last() =~= s.drop_last().update(i, x));
+        lemma_opt_claim(s.drop_last(), i, x);
+    }
+}
+pub proof fn lemma_opt_unwrap<R: Registry>(s: Seq<Option<Slot<R>>>, t: Seq<Slot<R>>)
+    requires s.len() == t.len(), forall|i: int| 0 <= i < s.len() ==> (#[trigger] s[i]) is Some && t[i] == s[i]->0,
+    ensures vx_active_count(t) == vx_opt_active(s)
+    decreases s.len()
+{
+    if s.len() > 0 {
+        assert(s.last() is Some && t.last() == s.last()->0);
+        lemma_opt_unwrap(s.drop_last(), t.drop_last());
+    }
+}
 '''
 
 
@@ -105,6 +142,7 @@ L1_STEP = r"""proof {
                 assert forall|j: int| 0 <= j < k implies (#[trigger] vx_fr[j]).index != e.index by {
                     assert(vx_pre[vx_fr[j].index as int] is Some);
                 }
+                lemma_opt_claim(vx_pre, e.index as int, vx_free_slot::<R>(e));
                 assert(vx_free_claimed(slots@, vx_fr, k + 1));
                 assert forall|s: int| 0 <= s < slots@.len() && (#[trigger] slots@[s]) is Some implies (exists|j: int| 0 <= j < k + 1 && (#[trigger] vx_fr[j]).index == s) by {
                     if s == e.index as int { assert(vx_fr[k].index == s); }
@@ -125,6 +163,7 @@ L3_STEP = r"""proof {
                 assert(e == *entity_identifier);
                 assert(tb.key() == vx_keys1@[t]);
                 assert(slots@ == vx_pre.update(e.index as int, vx_row_slot(tb, vx_keys1@[t], r)));
+                lemma_opt_claim(vx_pre, e.index as int, vx_row_slot(tb, vx_keys1@[t], r));
                 // nothing claimed before sits at the index just claimed (it was None)
                 assert forall|j: int| 0 <= j < vx_fr.len() implies (#[trigger] vx_fr[j]).index != e.index by {
                     assert(vx_pre[vx_fr[j].index as int] is Some);
@@ -161,6 +200,7 @@ L2_STEP = r"""proof {
             let t = vx_i1 as int;
             let tb = vx_m[vx_keys1@[t]];
             assert(i == tb.length);
+            lemma_sum_take_step(vx_m, vx_keys1@, t);
             assert forall|s: int| 0 <= s < slots@.len() && (#[trigger] slots@[s]) is Some implies vx_claimed_by(s, vx_fr, vx_fr.len() as int, vx_m, vx_keys1@, t + 1, 0) by {
                 assert(vx_claimed_by(s, vx_fr, vx_fr.len() as int, vx_m, vx_keys1@, t, tb.length as int));
                 if exists|q: int| 0 <= q < tb.length && t < vx_keys1@.len() && (#[trigger] vx_m[vx_keys1@[t]].ids()[q]).index == s {
@@ -201,6 +241,11 @@ END_PROOF = r"""proof {
                 assert(a.free@[j] == s as usize);
             }
             assert(a.wf());
+            // entity count: active slots == claimed slots with a location == rows of all tables
+            lemma_opt_unwrap(vx_sl, a.slots@);
+            assert(vx_keys1@.take(n) =~= vx_keys1@);
+            lemma_total_rows(vx_m, vx_keys1@);
+            assert(a.active_count() == vx_total_rows(vx_m));
             // every table agrees with the allocator
             assert forall|k: archetype::IdentifierRef<R>| vx_m.dom().contains(k) implies (#[trigger] vx_m[k]).agrees(&a) by {
                 assert(vx_keys1@.contains(k));
@@ -274,6 +319,7 @@ def build():
            ensures=[("C13.deserialize.alloc_wf", "r is Ok ==> r->Ok_0.wf()"),
                     ("C13.deserialize.tables_agree", "r is Ok ==> forall|k: archetype::IdentifierRef<R>| archetypes@.dom().contains(k) ==> (#[trigger] archetypes@[k]).agrees(&r->Ok_0)"),
                     ("C13.deserialize.ids_stored", "r is Ok ==> vx_de_ids_stored(archetypes@, &r->Ok_0)"),
+                    ("C13.deserialize.count", "r is Ok ==> r->Ok_0.active_count() == vx_total_rows(archetypes@)"),
                     ("C06.deserialize.slots_len", "r is Ok ==> r->Ok_0.slots@.len() == length"),
                     ("C06.deserialize.free_order", "r is Ok ==> r->Ok_0.free@.len() == free@.len() && forall|j: int| 0 <= j < free@.len() ==> r->Ok_0.free@[j] == (#[trigger] free@[j]).index"),
                     ("C06.deserialize.free_generations", "r is Ok ==> forall|j: int| 0 <= j < free@.len() ==> (#[trigger] free@[j]).index < length && r->Ok_0.slots@[free@[j].index as int].generation == free@[j].generation"),
@@ -283,6 +329,7 @@ def build():
                    ("de1.count", "vx_c == vx_it1.index@"),
                    ("de1.len", "slots@.len() == length"),
                    ("de1.claimed", "vx_free_claimed(slots@, vx_fr, vx_c)"),
+                   ("de1.count0", "vx_opt_active(slots@) == 0"),
                    ("de1.only", "forall|s: int| 0 <= s < slots@.len() && (#[trigger] slots@[s]) is Some ==> (exists|j: int| 0 <= j < vx_c && (#[trigger] vx_fr[j]).index == s)"),
                ]),
                Loop(invariant=[
@@ -290,6 +337,7 @@ def build():
                    ("de2.len", "slots@.len() == length"),
                    ("de2.free", "vx_free_claimed(slots@, vx_fr, vx_fr.len() as int)"),
                    ("de2.tables", "forall|j: int| 0 <= j < vx_i1 ==> vx_rows_claimed(slots@, #[trigger] vx_m[vx_keys1@[j]], vx_keys1@[j], vx_m[vx_keys1@[j]].length as int)"),
+                   ("de2.count", "vx_opt_active(slots@) == vx_sum_keys(vx_m, vx_keys1@.take(vx_i1 as int))"),
                    ("de2.only", "forall|s: int| 0 <= s < slots@.len() && (#[trigger] slots@[s]) is Some ==> vx_claimed_by(s, vx_fr, vx_fr.len() as int, vx_m, vx_keys1@, vx_i1 as int, 0)"),
                ], decreases="vx_n1 - vx_i1"),
                Loop(invariant=[
@@ -298,6 +346,7 @@ def build():
                    ("de3.free", "vx_free_claimed(slots@, vx_fr, vx_fr.len() as int)"),
                    ("de3.tables", "forall|j: int| 0 <= j < vx_i1 ==> vx_rows_claimed(slots@, #[trigger] vx_m[vx_keys1@[j]], vx_keys1@[j], vx_m[vx_keys1@[j]].length as int)"),
                    ("de3.rows", "vx_rows_claimed(slots@, vx_m[vx_keys1@[vx_i1 as int]], vx_keys1@[vx_i1 as int], i as int)"),
+                   ("de3.count", "vx_opt_active(slots@) == vx_sum_keys(vx_m, vx_keys1@.take(vx_i1 as int)) + i"),
                    ("de3.only", "forall|s: int| 0 <= s < slots@.len() && (#[trigger] slots@[s]) is Some ==> vx_claimed_by(s, vx_fr, vx_fr.len() as int, vx_m, vx_keys1@, vx_i1 as int, i as int)"),
                ], decreases="archetype.length - i"),
                Loop(invariant=[
@@ -315,6 +364,8 @@ def build():
            ],
            hints=[
                Hint("start", "let ghost vx_m = archetypes@; let ghost vx_fr = free@; let ghost mut vx_c: int = 0; let ghost mut vx_pre = Seq::<Option<Slot<R>>>::empty();"),
+               Hint("after", "proof { lemma_opt_none(slots@); }", anchor=r"let mut slots = vx_vec_none::<Slot<R>>\(length\)"),
+               Hint("before", "proof { assert(vx_keys1@.take(0).len() == 0); }", anchor=r"while vx_i1 < vx_n1"),
                Hint("before", "proof { vx_pre = slots@; }", anchor=r"if entity_identifier\.index >= slots\.len\(\)", nth=0),
                Hint("after", L1_STEP, anchor=r"slots\.set\(entity_identifier\.index", nth=0),
                Hint("after", "proof { assert(vx_keys1@.contains(vx_keys1@[vx_i1 as int])); assert(vx_m.dom().contains(vx_keys1@[vx_i1 as int])); assert(archetype.wf()); }", anchor=r"let archetype = archetypes\.raw_archetypes\.vx_nth\(vx_i1, vx_keys1\)"),
